@@ -363,10 +363,23 @@ fn to_vec(b: &Bytes) -> Vec<u8> {
 }
 
 /// claim data = created_at (8) || valid_until (8) || payload, the library's recommended encoding
+/// Model times at and below ZERO_AT stand for the first seconds of the u64 clock (ZERO_AT + k = timestamp k: a hand-built
+/// header - the library's encoder refuses it - that an off-chain signer is free to produce), FAR for u64::MAX.
+const ZERO_AT: i64 = -1_000_000;
+const FAR: i64 = 1_000_000_000;
+fn real_until(until: i64) -> u64 {
+    if until <= ZERO_AT + 1000 {
+        (until - ZERO_AT).max(0) as u64
+    } else if until >= FAR {
+        u64::MAX
+    } else {
+        (T0 as i64 + until) as u64
+    }
+}
 fn mk_data(e: &Env, until: i64, payload: &[u8]) -> Bytes {
     let mut v = Vec::new();
-    v.extend_from_slice(&(T0 - 1000).to_be_bytes());
-    v.extend_from_slice(&((T0 as i64 + until) as u64).to_be_bytes());
+    v.extend_from_slice(&(if until <= ZERO_AT + 1000 { 0u64 } else { T0 - 1000 }).to_be_bytes());
+    v.extend_from_slice(&real_until(until).to_be_bytes());
     v.extend_from_slice(payload);
     Bytes::from_slice(e, &v)
 }
@@ -808,7 +821,13 @@ fn drive_op(r: &mut StdRng, sys: &Sys, step: usize, untils: &mut std::collection
                 *pick(r, &STATIC_DEFECTS)
             };
             // expiry: just ahead (so that ticks cross it), far ahead, exactly now, already past
-            let until = (now + *pick(r, &[1i64, 1, 2, 3, 50, 50, 50, 0, -1])).max(0);
+            let until = if r.gen_ratio(1, 10) {
+                // the ends of the u64 clock
+                // (FAR + 1000 is FAR again: the defect "expiry extended after signing" would be none)
+                *pick(r, &[ZERO_AT, ZERO_AT, ZERO_AT + 1, if def == "until" { ZERO_AT } else { FAR }])
+            } else {
+                (now + *pick(r, &[1i64, 1, 2, 3, 50, 50, 50, 0, -1])).max(0)
+            };
             untils.insert((id.to_string(), t.to_string(), i.to_string()), until);
             mkop(kind, t, i, id, k, none, vec![], def, until, 0)
         }
